@@ -117,12 +117,13 @@ def _ret_elements(fn, index):
 def check(ctx):
     ctx.not_decided += [
         "the exact cut k ('largest set of newest files that fits')",
-        "the SQLite keep-newest-N query (SQL semantics)",
+        "SQL semantics of the SQLite keep-newest-N query beyond column/direction agreement",
         "limit parsing for all strings (to_history_tuple)",
     ]
     ctx.rule("R1", "GC candidates are unlocked and os.remove is applied only to the selector's result", floor=5)
     ctx.rule("R2", "each per-unit selector returns only files[:k], files or [] of the oldest-first list; files() sorts ascending", floor=6)
     ctx.rule("R3", "no slice bound `-n` is evaluated unless n > 0 is established (x[:-0] == [] trap)", floor=1)
+    ctx.rule("R5", "SQLite backend: the GC query cuts on the same age column the backend orders reads by, newest first", floor=4)
     ctx.rule("R4", "removal is control-dependent on `force or size_over < hsize`", floor=1)
 
     mod = ctx.repo.module(JSON)
@@ -338,6 +339,45 @@ def check(ctx):
         blocked = any(ev3(t, atoms) is (not pol) for t, pol in guards)
         mentions = any("self.force_gc" in unparse(t) for t, _ in guards)
         ctx.ob("R4", st_run, f"{short(c)} is unreachable when neither forced nor `discarded < limit` (control-dependent on `self.force_gc or size_over < hsize`)", blocked and mentions, key="run|refuse-unless-forced", where=loc(c), detail="guards: " + "; ".join(("" if p else "not ") + short(t, 60) for t, p in guards))
+
+
+    # ---- R5 SQLite backend: the cut is made on the age column
+    # "newest N commands" is decided by the command's start time `tsb` everywhere in the backend (reads order by
+    # it).  The GC query must cut on that same column: the implicit rowid is insertion order, which differs from
+    # age when two shells share the file or an older history is merged in.
+    import re as _re
+
+    sq = ctx.repo.module("xonsh/history/sqlite.py")
+
+    def sql_text(fn_):
+        parts = []
+        for n_ in ast.walk(fn_):
+            if isinstance(n_, ast.Constant) and isinstance(n_.value, str):
+                parts.append(n_.value)
+        return " ".join(parts)
+
+    def cols(rx, text):
+        return {m_.lower() for m_ in _re.findall(rx, text, _re.I)}
+
+    readers = [fn_ for q_, fn_ in sq.functions() if q_ in ("_xh_sqlite_get_records",)]
+    if not readers:
+        raise AnchorMissing("xonsh/history/sqlite.py: _xh_sqlite_get_records")
+    age_cols = cols(r"ORDER BY\s+(\w+)", sql_text(readers[0]))
+    if len(age_cols) != 1:
+        raise AnalysisError(f"xonsh/history/sqlite.py:_xh_sqlite_get_records: the age column is not unique ({sorted(age_cols)})")
+    age = next(iter(age_cols))
+    gc_fn = sq.func("_xh_sqlite_delete_records")
+    txt = sql_text(gc_fn)
+    used = {
+        "ordered by": cols(r"ORDER BY\s+(\w+)", txt),
+        "minimum of": cols(r"min\(\s*(\w+)\s*\)", txt),
+        "deleted below": cols(r"WHERE\s+(\w+)\s*<", txt),
+    }
+    if not all(used.values()):
+        raise AnalysisError(f"xonsh/history/sqlite.py:_xh_sqlite_delete_records: GC query shape not recognised ({used})")
+    for what, cs in used.items():
+        ctx.ob("R5", "xonsh/history/sqlite.py:_xh_sqlite_delete_records", f"the GC cut is {what} the age column `{age}` that every read orders by (not insertion order)", cs == {age}, key=f"sqlite-gc|{what}", where=loc(gc_fn), detail=f"found {sorted(cs)}")
+    ctx.ob("R5", "xonsh/history/sqlite.py:_xh_sqlite_delete_records", "the kept set is the top of a descending order (newest first) limited to the size to keep", bool(_re.search(r"ORDER BY\s+\w+\s+DESC", txt, _re.I)) and "LIMIT" in txt.upper(), key="sqlite-gc|direction", where=loc(gc_fn))
 
 
 META = {
